@@ -1607,7 +1607,6 @@ namespace bloch::compiler {
                                  "'@shots(N)' can only decorate the main() function.");
             }
         }
-        declare(node.name, node.isFinal, tinfo);
         if (auto arr = dynamic_cast<ArrayType*>(node.varType.get())) {
             bool hasExplicitSize = arr->size >= 0 || arr->sizeExpression != nullptr;
             if (arr->sizeExpression) {
@@ -1642,6 +1641,9 @@ namespace bloch::compiler {
         if (node.initializer)
             validateTypedInitializer(node.name, node.varType.get(), node.initializer.get(),
                                      node.line, node.column);
+        // The name comes into scope only after its own initialiser has been checked, so that
+        // 'int x = x + 1;' is a use before declaration.
+        declare(node.name, node.isFinal, tinfo);
         if (node.isFinal) {
             if (auto prim = dynamic_cast<PrimitiveType*>(node.varType.get())) {
                 if (prim->name == "int" && node.initializer) {
